@@ -380,18 +380,16 @@ Fixpoint finished_ids (evs : list jevent) : list (str * str) :=
   | _ :: r => finished_ids r
   end.
 
-(* ---------------------------------------------------------------- XmlString::new (quick-junit) *)
+(* ---------------------------------------------------------------- text stored in the report *)
 
-(* XmlString::new is strip_ansi_escapes::strip_str followed by a replace() filter; this is what
-   the two stages do to one character that is not part of an escape sequence.
-   Stage 1 (strip-ansi-escapes 0.2.1, the vte Perform impl): printable characters are print()ed,
-   C0 controls are execute()d and execute re-emits only LF -- so TAB and CR are dropped here;
-   ESC starts a sequence and never survives. *)
-Definition ansi_strip_keeps (c : N) : bool := (32 <=? c) || (c =? 10).
-(* Stage 2: the replace() filter removes C0 controls other than TAB, LF, CR *)
-Definition xmlstring_filter_keeps (c : N) : bool :=
-  negb ((c <=? 8) || (c =? 11) || (c =? 12) || ((14 <=? c) && (c <=? 31))).
-Definition xmlstring_keeps (c : N) : bool := ansi_strip_keeps c && xmlstring_filter_keeps c.
+(* Every message, description, system-out and system-err string of the report goes through
+   [xml_safe] (reporter/aggregator/junit.rs), which is, in this order:
+     1. [s.into()] = quick_junit::XmlString::new (0.5.1) = strip_ansi_escapes::strip_str, then a
+        replace() filter that removes the C0 controls other than TAB, LF, CR;
+     2. if the result contains U+FFFE or U+FFFF: these two are removed (str::replace) and the rest
+        is passed through XmlString::new once more (escape stripper and filter again);
+        otherwise the result of 1 is used as it is.
+   The input is a Rust string ([as_str_lossy] of the captured bytes): a list of scalar values. *)
 
 (* XML 1.0 production [2] Char *)
 Definition xml_char (c : N) : bool :=
@@ -402,5 +400,166 @@ Definition xml_char (c : N) : bool :=
 Definition is_scalar (c : N) : bool :=
   (c <=? 55295) || ((57344 <=? c) && (c <=? 1114111)).
 
-(* known finding F13: the two non-characters of the BMP *)
+Definition in_rng (lo hi b : N) : bool := (lo <=? b) && (b <=? hi).
+
+(* ---- stage 1a: strip-ansi-escapes 0.2.1 = vte 0.14.1 [Parser::advance] (one call on the whole
+   string) driving a [Perform] whose print(c) writes c, whose execute(b) writes LF iff b = LF and
+   whose other callbacks do nothing. In the Ground state vte works on characters
+   ([ground_dispatch]); in every other state it consumes the UTF-8 encoding byte by byte. The
+   parameter / intermediate / OSC buffers never influence print or execute and are not modelled. *)
+Inductive vstate :=
+| VGround | VEscape | VEscInt | VCsiEntry | VCsiParam | VCsiInt | VCsiIgnore
+| VDcsEntry | VDcsParam | VDcsInt | VDcsPass | VDcsIgnore | VOsc | VSos.
+
+(* the byte class 0x00..=0x17 | 0x19 | 0x1C..=0x1F of the transition tables *)
+Definition c0_exec (b : N) : bool := (b <=? 23) || (b =? 25) || in_rng 28 31 b.
+
+(* Parser::anywhere: (next state, is the byte execute()d) *)
+Definition anywhere (st : vstate) (b : N) : vstate * bool :=
+  if (b =? 24) || (b =? 26) then (VGround, true)
+  else if b =? 27 then (VEscape, false)
+  else (st, false).
+
+(* Parser::change_state on one byte in a state other than Ground: (next state, executed?) *)
+Definition byte_step (st : vstate) (b : N) : vstate * bool :=
+  match st with
+  | VGround => (VGround, false)                         (* unreachable!() in change_state *)
+  | VEscape =>
+      if c0_exec b then (VEscape, true)
+      else if in_rng 32 47 b then (VEscInt, false)
+      else if b =? 80 then (VDcsEntry, false)
+      else if (b =? 88) || (b =? 94) || (b =? 95) then (VSos, false)
+      else if b =? 91 then (VCsiEntry, false)
+      else if b =? 93 then (VOsc, false)
+      else if in_rng 48 126 b then (VGround, false)     (* esc_dispatch *)
+      else if (b =? 24) || (b =? 26) then (VGround, true)
+      else (VEscape, false)                             (* 0x1B, 0x7F, 0x80.. *)
+  | VEscInt =>
+      if c0_exec b then (VEscInt, true)
+      else if in_rng 32 47 b then (VEscInt, false)
+      else if in_rng 48 126 b then (VGround, false)
+      else if b =? 127 then (VEscInt, false)
+      else anywhere VEscInt b
+  | VCsiEntry =>
+      if c0_exec b then (VCsiEntry, true)
+      else if in_rng 32 47 b then (VCsiInt, false)
+      else if in_rng 48 63 b then (VCsiParam, false)
+      else if in_rng 64 126 b then (VGround, false)     (* csi_dispatch *)
+      else anywhere VCsiEntry b
+  | VCsiParam =>
+      if c0_exec b then (VCsiParam, true)
+      else if in_rng 32 47 b then (VCsiInt, false)
+      else if in_rng 48 59 b then (VCsiParam, false)
+      else if in_rng 60 63 b then (VCsiIgnore, false)
+      else if in_rng 64 126 b then (VGround, false)
+      else if b =? 127 then (VCsiParam, false)
+      else anywhere VCsiParam b
+  | VCsiInt =>
+      if c0_exec b then (VCsiInt, true)
+      else if in_rng 32 47 b then (VCsiInt, false)
+      else if in_rng 48 63 b then (VCsiIgnore, false)
+      else if in_rng 64 126 b then (VGround, false)
+      else anywhere VCsiInt b
+  | VCsiIgnore =>
+      if c0_exec b then (VCsiIgnore, true)
+      else if in_rng 32 63 b then (VCsiIgnore, false)
+      else if in_rng 64 126 b then (VGround, false)
+      else if b =? 127 then (VCsiIgnore, false)
+      else anywhere VCsiIgnore b
+  | VDcsEntry =>
+      if c0_exec b then (VDcsEntry, false)              (* ignored, not executed *)
+      else if in_rng 32 47 b then (VDcsInt, false)
+      else if in_rng 48 63 b then (VDcsParam, false)
+      else if in_rng 64 126 b then (VDcsPass, false)    (* hook *)
+      else if b =? 127 then (VDcsEntry, false)
+      else anywhere VDcsEntry b
+  | VDcsParam =>
+      if c0_exec b then (VDcsParam, false)
+      else if in_rng 32 47 b then (VDcsInt, false)
+      else if in_rng 48 59 b then (VDcsParam, false)
+      else if in_rng 60 63 b then (VDcsIgnore, false)
+      else if in_rng 64 126 b then (VDcsPass, false)
+      else if b =? 127 then (VDcsParam, false)
+      else anywhere VDcsParam b
+  | VDcsInt =>
+      if c0_exec b then (VDcsInt, false)
+      else if in_rng 32 47 b then (VDcsInt, false)
+      else if in_rng 48 63 b then (VDcsIgnore, false)
+      else if in_rng 64 126 b then (VDcsPass, false)
+      else if b =? 127 then (VDcsInt, false)
+      else anywhere VDcsInt b
+  | VDcsPass =>
+      if (b =? 24) || (b =? 26) then (VGround, true)    (* unhook, execute *)
+      else if b =? 27 then (VEscape, false)
+      else if b =? 156 then (VGround, false)            (* the BYTE 0x9C, also inside a character *)
+      else (VDcsPass, false)                            (* put *)
+  | VDcsIgnore => anywhere VDcsIgnore b
+  | VSos => anywhere VSos b
+  | VOsc =>
+      if b =? 7 then (VGround, false)                   (* BEL-terminated *)
+      else if (b =? 24) || (b =? 26) then (VGround, true)
+      else if b =? 27 then (VEscape, false)
+      else (VOsc, false)
+  end.
+
+(* the bytes of one character fed to a parser that is not in the Ground state. If the parser
+   returns to Ground in the middle of the character (only the byte 0x9C in DcsPassthrough does
+   that), [advance_ground] sees the orphaned continuation bytes one at a time as invalid UTF-8 of
+   length 1: bytes <= 0x9F are execute()d (nothing is written), the others print U+FFFD *)
+Fixpoint feed (st : vstate) (bs : list N) : vstate * str :=
+  match bs with
+  | [] => (st, [])
+  | b :: r =>
+      let '(st1, o1) :=
+        match st with
+        | VGround => (VGround, if b <=? 159 then [] else [65533])
+        | _ => let '(st', ex) := byte_step st b in (st', if ex && (b =? 10) then [10] else [])
+        end in
+      let '(st2, o2) := feed st1 r in (st2, o1 ++ o2)
+  end.
+
+(* what the Ground state does to one character other than ESC ([ground_dispatch]): C0 and C1
+   controls are execute()d -- only LF is re-emitted, so TAB and CR are dropped here --, everything
+   else is print()ed *)
+Definition ansi_strip_keeps (c : N) : bool :=
+  (c =? 10) || ((32 <=? c) && negb (in_rng 128 159 c)).
+
+Definition vte_char (st : vstate) (c : N) : vstate * str :=
+  match st with
+  | VGround =>
+      if c =? 27 then (VEscape, [])
+      else (VGround, if ansi_strip_keeps c then [c] else [])
+  | _ => feed st (utf8_char c)
+  end.
+
+Fixpoint ansi_strip_from (st : vstate) (s : str) : str :=
+  match s with
+  | [] => []
+  | c :: r => let '(st', o) := vte_char st c in o ++ ansi_strip_from st' r
+  end.
+
+(* strip_ansi_escapes::strip_str *)
+Definition ansi_strip (s : str) : str := ansi_strip_from VGround s.
+
+(* ---- stage 1b: the replace() filter of XmlString::new removes C0 controls other than TAB, LF, CR *)
+Definition xmlstring_filter_keeps (c : N) : bool :=
+  negb ((c <=? 8) || (c =? 11) || (c =? 12) || ((14 <=? c) && (c <=? 31))).
+
+(* quick_junit::XmlString::new *)
+Definition xmlstring_new (s : str) : str := filter xmlstring_filter_keeps (ansi_strip s).
+
+(* ---- stage 2: nextest's own xml_safe (the repair of finding F13) *)
 Definition known_nonchar (c : N) : bool := (c =? 65534) || (c =? 65535).
+
+Definition xml_safe (x : str) : str :=
+  if existsb known_nonchar x then xmlstring_new (filter (fun c => negb (known_nonchar c)) x)
+  else x.
+
+(* the text of a stored output / message / description, for the captured string [s] *)
+Definition stored_text (s : str) : str := xml_safe (xmlstring_new s).
+
+(* ---- the same, per character that is not part of an escape sequence *)
+(* quick-junit's XmlString::new alone (what nextest relied on before the repair) *)
+Definition xmlstring_keeps (c : N) : bool := ansi_strip_keeps c && xmlstring_filter_keeps c.
+(* the repaired pipeline *)
+Definition nextest_keeps (c : N) : bool := xmlstring_keeps c && negb (known_nonchar c).
